@@ -3,10 +3,8 @@
 package harness
 
 import (
-	"bytes"
 	"fmt"
 	"os"
-	"runtime"
 	"strings"
 	"sync"
 	"sync/atomic"
@@ -45,16 +43,6 @@ func genC18Pre(t *rapid.T) c18PreCase {
 		OpA: rapid.SampledFrom([]string{"commit", "commitasneeded"}).Draw(t, "opA"), K: rapid.IntRange(0, 14).Draw(t, "k"),
 		OpB:  rapid.SampledFrom([]string{"resolve-others", "resolve-others", "resolve-identities", "new", "list", "same", "user"}).Draw(t, "opB"),
 		Size: rapid.IntRange(1, 3).Draw(t, "size"), Reopen: rapid.Bool().Draw(t, "reopen")}
-}
-
-func goid() string {
-	var buf [64]byte
-	n := runtime.Stack(buf[:], false)
-	f := bytes.Fields(buf[:n])
-	if len(f) > 1 {
-		return string(f[1])
-	}
-	return ""
 }
 
 func runC18Pre(tb report.TB, rep *report.Reporter, c c18PreCase) {
